@@ -13,6 +13,8 @@ mod c04;
 mod c05;
 mod c06;
 mod c07;
+mod c08;
+mod c09;
 mod c10;
 mod c11;
 mod c12;
@@ -29,7 +31,7 @@ mod evalkit;
 use runner::{Check, Tier};
 
 fn checks() -> Vec<&'static dyn Check> {
-    vec![&c01::C01, &c02::C02, &c03::C03, &c04::C04, &c05::C05, &c06::C06, &c07::C07, &c10::C10, &c11::C11, &c12::C12, &c13::C13, &c14::C14, &c15::C15, &c16::C16, &c17::C17, &c18::C18, &c19::C19, &c20::C20]
+    vec![&c01::C01, &c02::C02, &c03::C03, &c04::C04, &c05::C05, &c06::C06, &c07::C07, &c08::C08, &c09::C09, &c10::C10, &c11::C11, &c12::C12, &c13::C13, &c14::C14, &c15::C15, &c16::C16, &c17::C17, &c18::C18, &c19::C19, &c20::C20]
 }
 
 fn usage() -> ! {
@@ -84,6 +86,11 @@ fn main() {
                     skip,
                 },
             );
+        }
+        Some("unit") => {
+            // fv unit <id> <tier> <unit>   (debug aid)
+            let c = checks.iter().find(|c| c.id() == args[2]).expect("property");
+            runner::run_unit_verbose(*c, Tier::parse(&args[3]).unwrap(), args[4].parse().unwrap());
         }
         Some("replay") => {
             let Some(path) = args.get(2) else { usage() };
